@@ -117,7 +117,7 @@ type SelfTestSpec struct {
 	ExpectRule      string `json:"expect_rule"`
 	ExpectConstruct string `json:"expect_construct_contains,omitempty"`
 	ExpectSilent    bool   `json:"expect_silent,omitempty"` // a behaviour-preserving edit: the rule set must report nothing
-	Config          string `json:"config,omitempty"` // build configuration under which the mutant is visible (default: host)
+	Config          string `json:"config,omitempty"`        // build configuration under which the mutant is visible (default: host)
 	Origin          string `json:"origin"`
 	What            string `json:"what"`
 }
